@@ -2,6 +2,8 @@
 
  1. neutral twins   - behaviour-preserving rewrites of the whole package (asv.mutants.TWINS): the property's rules must
                       report nothing that they do not report on the tree itself;
+ 1b. neutral refactorings - /verif/selftest/neutral/<property>-N*.diff: behaviour-preserving rewrites of the code the
+                      property is anchored in, written by agents that saw only the property text: same expectation;
  2. breaking variants - /verif/selftest/variants/*.diff: the reverse of every repaired defect and every confirmed seeded
                       defect that belongs to this property, applied to a scratch copy of the current tree: the property's
                       rules must report something new.  A patch that no longer applies is skipped (and listed);
@@ -26,6 +28,7 @@ from .loader import PKG, AnalysisError, Program
 from .report import Ctx, Undischarged, load_known, match_known
 
 VARIANTS = os.path.join(os.path.dirname(os.path.dirname(os.path.abspath(__file__))), "selftest", "variants")
+NEUTRAL = os.path.join(os.path.dirname(os.path.dirname(os.path.abspath(__file__))), "selftest", "neutral")
 
 
 def _run_rules(mod, prop: str, repo: str):
@@ -80,6 +83,9 @@ def _job(args):
                 mutants.TWINS[name](tmp)
             except SyntaxError:
                 return kind, name, "skipped", None, "tree does not compile"
+        elif kind == "neutral":
+            if not _apply(os.path.join(NEUTRAL, name + ".diff"), tmp):
+                return kind, name, "skipped", None, "patch does not apply to the current tree"
         else:
             if not _apply(os.path.join(VARIANTS, name + ".diff"), tmp):
                 return kind, name, "skipped", None, "patch does not apply to the current tree"
@@ -112,12 +118,13 @@ def run(ctx, mod, out=print) -> dict:
     prop = ctx.prop
     repo = ctx.p.repo
     base = {f.key() for f in ctx.findings}
-    res = {"twins": [], "variants": [], "mypy": None, "ok": True}
+    res = {"twins": [], "neutral_refactorings": [], "variants": [], "mypy": None, "ok": True}
 
     idx_path = os.path.join(VARIANTS, "INDEX.json")
     index = json.load(open(idx_path)) if os.path.exists(idx_path) else []
     mine = [v for v in index if v.get("property") == prop]
-    jobs = [("twin", name, prop, repo) for name in mutants.TWINS] + [("variant", v["name"], prop, repo) for v in mine]
+    neutral = sorted(f[:-5] for f in os.listdir(NEUTRAL) if f.endswith(".diff") and f.startswith(prop + "-")) if os.path.isdir(NEUTRAL) else []
+    jobs = [("twin", name, prop, repo) for name in mutants.TWINS] + [("neutral", n, prop, repo) for n in neutral] + [("variant", v["name"], prop, repo) for v in mine]
     results = _run_jobs(jobs)
     meta = {v["name"]: v for v in mine}
 
@@ -139,6 +146,26 @@ def run(ctx, mod, out=print) -> dict:
                 out(f"SELFTEST property={prop} twin={name} ALARM {got[new[0]][3][:160]}")
             else:
                 res["twins"].append({"twin": name, "verdict": "silent"})
+
+    # 1b. behaviour-preserving refactorings of the code this property is anchored in (written by hand-off agents that saw
+    #     only the property text; /verif/selftest/neutral): same expectation as for the mechanical twins
+    for kind, name, status, got, err in results:
+        if kind != "neutral":
+            continue
+        if status == "skipped":
+            res["neutral_refactorings"].append({"refactoring": name, "verdict": f"skipped ({err})"})
+        elif status == "error":
+            res["neutral_refactorings"].append({"refactoring": name, "verdict": "ALARM", "detail": err})
+            res["ok"] = False
+            out(f"SELFTEST property={prop} neutral={name} ALARM {err}")
+        else:
+            new = [k for k in got if k not in base]
+            if new:
+                res["ok"] = False
+                res["neutral_refactorings"].append({"refactoring": name, "verdict": "ALARM", "detail": [got[k][3] for k in new[:3]]})
+                out(f"SELFTEST property={prop} neutral={name} ALARM {got[new[0]][3][:160]}")
+            else:
+                res["neutral_refactorings"].append({"refactoring": name, "verdict": "silent"})
 
     # 2. breaking variants of this property
     n_det = n_app = 0
@@ -189,6 +216,7 @@ def run(ctx, mod, out=print) -> dict:
         res["mypy"] = {"skipped": "mypy not importable in this interpreter"}
     out(
         f"SELFTEST property={prop} twins_silent={sum(1 for t in res['twins'] if t['verdict'] == 'silent')}/{len(res['twins'])} "
+        f"neutral_silent={sum(1 for t in res['neutral_refactorings'] if t['verdict'] == 'silent')}/{len(res['neutral_refactorings'])} "
         f"variants_detected={n_det}/{n_app} mypy_agree={res['mypy'].get('agree', '-')} mypy_disagree={len(res['mypy'].get('disagree', []))} ok={res['ok']}"
     )
     return res
